@@ -113,10 +113,6 @@ pub fn peephole_compile<'a>(
 
   let mut label_offsets: collections::Vec<usize> = bumpalo::vec![in alloc; 0; label_count];
 
-  if label_count > u16::MAX as usize {
-    todo!("Really handle this");
-  }
-
   compute_label_offsets(&instructions, &mut label_offsets[..label_count]);
 
   let code_buffer = collections::Vec::with_capacity_in(instructions.len() * 2, alloc);
